@@ -156,6 +156,12 @@ pub fn explore<const N: usize>(ctx: &Ctx, t: &Target, chunks: &[Vec<u8>], c09: b
     let shape = t.shape();
     let tname = t.name();
     let init: CobsAccumulator<N> = CobsAccumulator::new();
+    {
+        let d: CobsAccumulator<N> = Default::default();
+        if d.verif_state() != init.verif_state() {
+            ctx.violation("acc-default", "Default::default() differs from new()".into(), 0, json!({"N": N}));
+        }
+    }
     let (b0, i0) = init.verif_state();
     let k0 = key_of::<N>(b0, i0);
     let mut parents: HashMap<u128, (u128, u32)> = HashMap::new();
